@@ -1,5 +1,5 @@
 (* C06 — property theorems.  Nothing but statements, `exact`, Print Assumptions. *)
-From G04 Require Import Access Creds CredsCheck CredsProofs CredsOracle CredsObligations.
+From G04 Require Import Access AccessProofs B64Proofs Obligations Creds CredsCheck CredsProofs CredsTable CredsOracle CredsObligations.
 
 (* Whatever the client put in Proxy-Authorization (any number of lines; nominated in
    Connection or not): the field of every message the proxy emits is determined by the
@@ -68,6 +68,29 @@ Print Assumptions T06_client_authorization_kept.
 Theorem T06_mitm_lookup_is_https : forall claimed, mitm_lookup_scheme claimed = b "https".
 Proof. exact (fun claimed => f_equal (fun f : bool => if f then b "https" else claimed) (proj2 ob_mitm_https_before_modifiers)). Qed.
 Print Assumptions T06_mitm_lookup_is_https.
+
+(* Which tables exist at all: NewCredentialsMatcher accepts a table exactly when no entry falls into the same class
+   - exact, any-host:port, host:any-port, global - with the same key as an earlier entry. *)
+Theorem T06_table_accepted_iff_no_duplicate : forall es, new_matcher es = None <-> no_duplicate es = false.
+Proof. exact table_accepted_iff. Qed.
+Print Assumptions T06_table_accepted_iff_no_duplicate.
+
+(* What is attached for a credential (site: Authorization, upstream: Proxy-Authorization) is "Basic " + base64(user:password):
+   parsed by the proxy's own Basic parser it gives back exactly that user and password (user without colon, bytes). *)
+Theorem T06_attached_credential_is_the_entry : forall c,
+  bytes (fst c) -> bytes (snd c) -> ~ In 58 (fst c) -> parse_basic_auth (basic_value c) = Some c.
+Proof. exact (fun c => basic_value_parses c ob_basic_prefix). Qed.
+Print Assumptions T06_attached_credential_is_the_entry.
+
+Example T06_table_example :
+  no_duplicate [{| e_host := b "*"; e_port := b "80"; e_cred := (b "a", b "1") |};
+                {| e_host := b "x.test"; e_port := b "80"; e_cred := (b "c", b "2") |};
+                {| e_host := b "*"; e_port := b "80"; e_cred := (b "d", b "3") |}] = false /\
+  no_duplicate [{| e_host := b "*"; e_port := b "80"; e_cred := (b "a", b "1") |};
+                {| e_host := b "x.test"; e_port := b "0"; e_cred := (b "c", b "2") |};
+                {| e_host := b "*"; e_port := b "0"; e_cred := (b "d", b "3") |}] = true /\
+  parse_basic_auth (basic_value (b "user", b "pa:ss")) = Some (b "user", b "pa:ss").
+Proof. exact (conj eq_refl (conj eq_refl eq_refl)). Qed.
 
 (* The run-time oracle is met by the model: for EVERY credential table, upstream selection, scheme,
    request and (for a client CONNECT) request sent through the tunnel, the messages the model
